@@ -399,6 +399,17 @@ Fixpoint has_link (n : node) : bool :=
          end) es
   end.
 
+(* ---------------------------------------------------------------- path spelling ------------- *)
+(* `dest := filepath.Join(to, name[len(from):])` in the walk callback.  godirwalk reports names below
+   filepath.Clean(from): the root itself as `cleaned` (the FIRST callback), an entry as
+   cleaned ++ "/" ++ rel.  Go's slice expression name[n:] panics when n > len(name).  A `from` that is
+   not a directory is never walked (no slicing). *)
+Definition rel_of (from name : str) : option str :=
+  if Nat.leb (length from) (length name) then Some (skipn (length from) name) else None.
+
+Definition walk_panics (from cleaned : str) (isdir : bool) : bool :=
+  isdir && match rel_of from cleaned with None => true | Some _ => false end.
+
 (* ---------------------------------------------------------------- correspondence cases ------ *)
 Fixpoint node_eqb (a b : node) : bool :=
   match a, b with
@@ -447,7 +458,12 @@ Definition canon_world (w : world) : world := map (fun e => (fst e, canon (snd e
    destination may hold a partial copy and a temporary file with a random name. *)
 Inductive obs := ObsOk (after : world) | ObsErr.
 
-Inductive case := Case (k : cfg) (w : world) (a b : str) (o : obs).
+(* CaseSpelling: RecursiveCopy/RecursiveLink called with `from` spelled in some way; cleaned =
+   filepath.Clean(from) as Go computes it; isdir = `from` is a directory; panicked = the call
+   panicked. *)
+Inductive case :=
+| Case (k : cfg) (w : world) (a b : str) (o : obs)
+| CaseSpelling (from cleaned : str) (isdir : bool) (panicked : bool).
 
 Definition check (c : case) : bool :=
   match c with
@@ -457,4 +473,5 @@ Definition check (c : case) : bool :=
       | Failed, ObsErr => true
       | _, _ => false
       end
+  | CaseSpelling f cl isdir p => Bool.eqb p (walk_panics f cl isdir)
   end.
